@@ -206,7 +206,8 @@ fn translate_block(
                     instruction_graph.set_address(Some(instruction.address));
                     block_graphs.push((instruction.address, instruction_graph));
 
-                    successors.push((detail.operands[0].imm() as u64, None));
+                    // branch targets are 32-bit addresses (capstone computes them in 64 bits)
+                    successors.push((detail.operands[0].imm() as u32 as u64, None));
 
                     break;
                 }
@@ -225,7 +226,7 @@ fn translate_block(
                         let false_condition =
                             Expression::cmpneq(true_condition.clone(), expr_const(1, 1))?;
                         successors.push((instruction.address + 4, Some(false_condition)));
-                        successors.push((detail.operands[2].imm() as u64, Some(true_condition)));
+                        successors.push((detail.operands[2].imm() as u32 as u64, Some(true_condition)));
                     } else {
                         return Err(Error::Custom("Unhandled bc instruction".to_string()));
                     }
